@@ -1394,20 +1394,85 @@ Section DriveMembers.
   Qed.
 End DriveMembers.
 
-(* ------------------------------------------------------------------ where the round trip fails (witnesses) *)
+(* ------------------------------------------------------------------ the empty stream, the option borders *)
+(* Stated for whichever variant of the code the translator found (Gen/Codec.v): the pinned tree
+   has every variant flag false. *)
+Definition k_bid_empty_fix (k : enc_kind) : bool :=
+  match k with KUU => rd_uu_bid_empty_fix | KB64 => rd_b64_bid_empty_fix end.
+
+Lemma encode_all_empty : forall k mode name, encode_all k mode name [] = enc_header k mode name ++ k_trailer k.
+Proof. intros. unfold encode_all. reflexivity. Qed.
+
+Lemma bid_second_trailer : forall k,
+  bid_second (hk k) 20 (k_trailer k) =
+  if k_bid_empty_fix k then match k with KUU => 50 | KB64 => 60 end else 0.
+Proof. destruct k; vm_compute; reflexivity. Qed.
+
+(* the bid on an empty stream: 0 on the pinned tree, accepted once the bidder knows the
+   "zero-length line / end" and "====" forms *)
+Theorem bid_empty : forall k mode name, mode_ok k mode -> name_ok name ->
+  uu_bid (encode_all k mode name []) =
+  if k_bid_empty_fix k then match k with KUU => 50 | KB64 => 60 end else 0.
+Proof.
+  intros k mode name Hm Hn. rewrite encode_all_empty. unfold uu_bid.
+  destruct (header_line k mode name (k_trailer k) Hm Hn) as (_ & _ & _ & _ & _ & x & y & Ed).
+  rewrite Ed at 1. rewrite bid_find_header by assumption. apply bid_second_trailer.
+Qed.
+
+Theorem read_empty : forall k mode name, mode_ok k mode -> name_ok name ->
+  read_uu_only (encode_all k mode name []) =
+  if k_bid_empty_fix k then Some ([ARCHIVE_FILTER_UU; ARCHIVE_FILTER_NONE], [])
+  else Some ([ARCHIVE_FILTER_NONE], encode_all k mode name []).
+Proof.
+  intros k mode name Hm Hn. unfold read_uu_only, MAX_FILTERS. cbn [uu_reader].
+  rewrite (bid_empty k mode name Hm Hn).
+  destruct (k_bid_empty_fix k).
+  - replace (0 <? match k with KB64 => 60 | KUU => 50 end) with true by (destruct k; reflexivity).
+    rewrite roundtrip; [reflexivity|assumption|assumption|constructor].
+  - reflexivity.
+Qed.
+
 Definition dash : list N := [45].
 
-Lemma uu_empty_not_recognised :
-  uu_bid (encode_all KUU 420 dash []) = 0 /\ uu_bid (encode_all KB64 420 dash []) = 0 /\
-  read_uu_only (encode_all KUU 420 dash []) = Some ([ARCHIVE_FILTER_NONE], encode_all KUU 420 dash []).
-Proof. vm_compute. repeat split; reflexivity. Qed.
+Lemma dash_ok : name_ok dash.
+Proof. split; [discriminate|]. split; [repeat constructor; lia|vm_compute; reflexivity]. Qed.
 
-Lemma uu_mode_below_0100 :
-  uu_bid (encode_all KUU 7 dash [0; 1]) = 0 /\ uu_decode (encode_all KUU 7 dash [0; 1]) = Some [] /\
-  uu_bid (encode_all KB64 63 dash [0; 1]) = 0 /\ uu_decode (encode_all KB64 63 dash [0; 1]) = Some [].
-Proof. vm_compute. repeat split; reflexivity. Qed.
+(* mode option below 0100 with the plain "%o" header: not recognised, nothing decoded *)
+Lemma uu_mode_below_0100 : uu_mode_fixed3 = false ->
+  uu_bid (encode_all KUU 7 dash [0; 1]) = 0 /\ uu_decode (encode_all KUU 7 dash [0; 1]) = Some [].
+Proof.
+  intro H. vm_compute in H. first [discriminate H | (vm_compute; split; reflexivity)].
+Qed.
 
-Lemma uu_name_not_printable :
-  uu_bid (encode_all KUU 420 [99; 97; 102; 195; 169] [0; 1]) = 0 /\
-  uu_decode (encode_all KUU 420 [99; 97; 102; 195; 169] [0; 1]) = None.
-Proof. vm_compute. repeat split; reflexivity. Qed.
+(* a name option with a byte outside 0x20..0x7e ("caf" 0xc3 0xa9) that the writer stores as is *)
+Definition cafe : list N := [99; 97; 102; 195; 169].
+Lemma uu_name_not_printable : uu_name_printable_only = false ->
+  opt_name KUU (Some cafe) = cafe /\
+  uu_bid (encode_all KUU 420 (opt_name KUU (Some cafe)) [0; 1]) = 0 /\
+  uu_decode (encode_all KUU 420 (opt_name KUU (Some cafe)) [0; 1]) = None.
+Proof.
+  intro H. vm_compute in H. first [discriminate H | (vm_compute; repeat split; reflexivity)].
+Qed.
+
+(* with the writer variant that refuses such names, whatever the option was, the stored name is
+   printable *)
+Lemma opt_name_printable : forall k o, k_name_printable_only k = true ->
+  Forall (fun c => 32 <= c <= 126) (opt_name k o).
+Proof.
+  intros k o H.
+  assert (D : Forall (fun c => 32 <= c <= 126) (k_default_name k)).
+  { destruct k; vm_compute; repeat constructor; discriminate. }
+  destruct o as [s|]; [|exact D].
+  unfold opt_name, name_rejected. rewrite H. cbn [andb].
+  destruct (existsb (fun c => (c <? 32) || (126 <? c)) s) eqn:E; [exact D|].
+  apply Forall_forall. intros c Hc.
+  destruct (N.lt_ge_cases c 32) as [L|L].
+  { assert (existsb (fun c => (c <? 32) || (126 <? c)) s = true).
+    { apply existsb_exists. exists c. split; [exact Hc|]. apply orb_true_iff. left. apply N.ltb_lt. exact L. }
+    congruence. }
+  destruct (N.lt_ge_cases 126 c) as [U|U].
+  { assert (existsb (fun c => (c <? 32) || (126 <? c)) s = true).
+    { apply existsb_exists. exists c. split; [exact Hc|]. apply orb_true_iff. right. apply N.ltb_lt. exact U. }
+    congruence. }
+  lia.
+Qed.
